@@ -1,6 +1,7 @@
 package engines
 
 import (
+	"bytes"
 	"fmt"
 	"reflect"
 	"sort"
@@ -243,7 +244,15 @@ type mreport struct {
 }
 
 func tokenizeMouse(s []byte) ([]mreport, bool) {
+	reps, escs, ok := tokenizeMouseEsc(s, false)
+	return reps, ok && len(escs) == 0
+}
+
+// tokenizeMouseEsc: as tokenizeMouse; with loneEsc every report may be preceded by ESC bytes that are not part of it (an
+// Esc key press or an Alt prefix typed just before the terminal sent the report): escs = the offsets of those bytes.
+func tokenizeMouseEsc(s []byte, loneEsc bool) ([]mreport, []int, bool) {
 	var out []mreport
+	var escs []int
 	i := 0
 	num := func() (int, bool) {
 		neg := false
@@ -266,46 +275,50 @@ func tokenizeMouse(s []byte) ([]mreport, bool) {
 		return v, true
 	}
 	for i < len(s) {
+		for loneEsc && s[i] == 0x1b && i+1 < len(s) && (s[i+1] == 0x1b || s[i+1] == 0x9b) {
+			escs = append(escs, i)
+			i++
+		}
 		if s[i] == 0x1b && i+1 < len(s) && s[i+1] == '[' {
 			i += 2
 		} else if s[i] == 0x9b {
 			i++
 		} else {
-			return nil, false
+			return nil, nil, false
 		}
 		if i >= len(s) {
-			return nil, false
+			return nil, nil, false
 		}
 		switch s[i] {
 		case '<':
 			i++
 			b, ok := num()
 			if !ok || i >= len(s) || s[i] != ';' {
-				return nil, false
+				return nil, nil, false
 			}
 			i++
 			x, ok := num()
 			if !ok || i >= len(s) || s[i] != ';' {
-				return nil, false
+				return nil, nil, false
 			}
 			i++
 			y, ok := num()
 			if !ok || i >= len(s) || (s[i] != 'M' && s[i] != 'm') {
-				return nil, false
+				return nil, nil, false
 			}
 			out = append(out, mreport{sgr: true, code: b, x: x, y: y, release: s[i] == 'm', valid: true})
 			i++
 		case 'M':
 			if i+3 >= len(s) {
-				return nil, false
+				return nil, nil, false
 			}
 			out = append(out, mreport{code: int(s[i+1]) - 32, x: int(s[i+2]) - 32, y: int(s[i+3]) - 32, valid: s[i+1] >= 32})
 			i += 4
 		default:
-			return nil, false
+			return nil, nil, false
 		}
 	}
-	return out, len(out) > 0
+	return out, escs, len(out) > 0
 }
 
 type mexpect struct {
@@ -420,9 +433,29 @@ func mouseOracle(ti *terminfo.Terminfo, cs string, w, hh int, fs []feed, all []s
 		}
 		stream = append(stream, f.b...)
 	}
-	reps, ok := tokenizeMouse(stream)
+	// reports, each possibly preceded by lone ESC bytes (same read or an earlier one, no timeout in between).  C12 says
+	// what every REPORT decodes to; what becomes of such an ESC (an Esc key event, Alt on a later key, nothing) is not
+	// C12's business: with lone ESCs in the stream only the mouse events are looked at.
+	reps, escs, ok := tokenizeMouseEsc(stream, true)
 	if !ok {
 		return nil
+	}
+	if len(escs) > 0 {
+		keys := tcell.VerifKeyTable(ti)
+		for _, off := range escs {
+			for k := range keys {
+				if k != "\x1b" && strings.HasPrefix(string(stream[off:]), k) {
+					return nil // the ESC begins a key sequence of this entry: not a lone ESC
+				}
+			}
+		}
+		var ms []string
+		for _, e := range all {
+			if strings.HasPrefix(e, "M.") {
+				ms = append(ms, e)
+			}
+		}
+		all = ms
 	}
 	for i := range stream {
 		if stream[i] == 0x9b && cs != "UTF-8" {
@@ -512,6 +545,9 @@ func execParse(line string, chunkOracle bool) h.Result {
 	}
 	if !chunkOracle {
 		fx := mouseOracle(ti, cs, w, hh, fs, all, left)
+		if _, escs, ok := tokenizeMouseEsc(joinFeeds(fs), true); ok && len(escs) > 0 {
+			tags["mouse-after-lone-esc"] = true
+		}
 		if r, ok := tokenizeMouseLine(fs); ok {
 			tags["mouse-only"] = true
 			for _, m := range r {
@@ -538,13 +574,15 @@ func execParse(line string, chunkOracle bool) h.Result {
 	return res
 }
 
-func tokenizeMouseLine(fs []feed) ([]mreport, bool) {
+func joinFeeds(fs []feed) []byte {
 	var s []byte
 	for _, f := range fs {
 		s = append(s, f.b...)
 	}
-	return tokenizeMouse(s)
+	return s
 }
+
+func tokenizeMouseLine(fs []feed) ([]mreport, bool) { return tokenizeMouse(joinFeeds(fs)) }
 
 // C02 oracle: no timeout expires between the reads (only the last feed may carry the expire flag), so the events
 // must equal those of one read of the concatenation; after expiry nothing may remain buffered.
@@ -772,13 +810,46 @@ func genParse(g *h.Gen) {
 			}
 		}
 	}
-	// (c) report sequences (press / drag / wheel / release), whole and partitioned, several screen sizes and entries
+	// (b') a report preceded by a lone ESC (an Esc key press / Alt prefix typed just before the terminal reported): every
+	// modifier combination and button class, SGR 7-bit / 8-bit and X11, in one read, the ESC in a read of its own, and
+	// the read boundary inside the report — never with a timeout in between.  The report's modifiers are its own bits.
+	for _, b := range []int{0, 1, 2, 3, 4, 8, 12, 16, 20, 24, 28, 32, 35, 40, 64, 65, 66, 72, 128} {
+		for kind := 0; kind < 3; kind++ {
+			for _, nesc := range []int{1, 2} {
+				x, y := coordOf(g, "in", w, hh)
+				var rep []byte
+				switch kind {
+				case 0:
+					rep = sgrBytes(false, b, x, y, b%8 == 3)
+				case 1:
+					rep = sgrBytes(true, b, x, y, false)
+				default:
+					rep = x11Bytes(false, (b&0xdf)+32, x+32, y+32)
+				}
+				pre := bytes.Repeat([]byte{0x1b}, nesc)
+				ent := []string{"xterm-256color", "xterm", "linux", "alacritty"}[(b+kind+nesc)%4] + variantSuffix()
+				whole := append(append([]byte{}, pre...), rep...)
+				g.Emit("parse %s utf8 %d %d %s", ent, w, hh, hexFeed(whole, false))
+				g.Emit("parse %s utf8 %d %d %s %s", ent, w, hh, hexFeed(pre, false), hexFeed(rep, nesc == 2))
+				cut := len(pre) + 1 + (b+kind)%(len(rep)-1)
+				g.Emit("parse %s utf8 %d %d %s %s", ent, w, hh, hexFeed(whole[:cut], false), hexFeed(whole[cut:], false))
+				// … and a second report behind it (the ESC's effect must not reach that one either)
+				g.Emit("parse %s utf8 %d %d %s", ent, w, hh, hexFeed(append(append([]byte{}, whole...), rep...), false))
+			}
+		}
+	}
+	// (c) report sequences (press / drag / wheel / release), whole and partitioned, several screen sizes and entries; in a
+	// fifth of the streams some reports are preceded by a lone ESC
 	mouseEntries := []string{"xterm-256color", "xterm", "linux", "screen", "rxvt", "tmux", "foot", "alacritty"}
 	for i := 0; i < g.N(1500, 100000); i++ {
 		ww, hw := h.Pick(g.R, []int{80, 1, 2, 132, 300}), h.Pick(g.R, []int{24, 1, 3, 50, 100})
 		var s []byte
 		pct := h.Pick(g.R, []int{100, 100, 100, 0, 0, 60}) // mostly one protocol per stream
+		escPct := h.Pick(g.R, []int{0, 0, 0, 0, 35})
 		for k := g.R.Range(1, 8); k > 0; k-- {
+			if escPct > 0 && g.R.Chance(escPct) {
+				s = append(s, 0x1b)
+			}
 			s = append(s, randMouseReport(g, ww, hw, pct)...)
 		}
 		cs := "utf8"
